@@ -44,6 +44,7 @@ func runSession(t *testing.T, o SrvOpts, m *Model, reqs []Req, d Delivery) *Sess
 			}
 		}
 		for i, rq := range reqs {
+			tick()
 			if f := d.Before[i]; f != nil {
 				f()
 			}
